@@ -54,7 +54,7 @@ def sig_c09(rec):
     return "codec:record " + str(case.get("record_hex"))[:80]
 
 
-FLIGHT_COMPONENTS = ["mismatch", "monitor:C01", "monitor:C02+C10", "monitor:C03", "monitor:C04+C08+C20", "monitor:C07", "monitor:C18", "monitor:C10+C20"]
+FLIGHT_COMPONENTS = ["mismatch", "monitor:C01", "monitor:C02+C10", "monitor:C03", "monitor:C04+C08+C20", "monitor:C07", "monitor:C18+C10", "monitor:C10+C20"]
 
 
 def flight_family(quick, thorough, search):
@@ -168,7 +168,9 @@ PROPS = {
         "explanation": "upstream_request / client_after / response theorems for all requests, labels, locations; never_store_partial for conforming origins.",
     },
     "C17": {
-        "families": {"config": {"quick": 400, "thorough": 8000, "search": 2000}},
+        "families": {"config": {"quick": 400, "thorough": 8000, "search": 2000},
+                     # a running server re-bound to another cache by an accepted configuration must still resolve it
+                     "reload": {"quick": 18, "thorough": 180, "search": 45, "no_cases": True}},
         "signature": lambda rec: "config:" + str((rec.get("case") or {}).get("kind", "")) + str((rec.get("case") or {}).get("config"))[:170],
         "trusted_base": CONFIG_TRUST,
         "assumptions": ["names are ASCII (max=20 counts runes; the model counts bytes)", "servers are not started (no sockets) when configurations are applied by the harness"],
